@@ -82,7 +82,7 @@ package gossip
 
 //@ contract newArrivalIntervals
 //@   serves C12
-//@   requires[size] sampleSize >= 1
+//@   requires[size] sampleSize >= 1 && sampleSize <= 2147483647
 //@   ensures[fresh] result != nil && fresh(result) && fresh(result.intervals)
 //@   ensures[inv] aiInv(result)
 //@   ensures[empty] result.index == 0 && !result.isFull && len(result.intervals) == sampleSize
